@@ -876,6 +876,10 @@ INTRUDER = {
     "todirect": "let _d = world.to_direct(e2);",
 }
 
+REJECTION_FAMILY = ["E0499", "E0502", "E0503", "E0505", "E0506", "E0507", "E0515", "E0521", "E0596", "E0597", "E0700", "E0712", "E0713", "E0716",
+                    "E0277", "E0271", "E0308", "E0106", "E0621", "E0623", "lifetime may not live long enough", "mut entity access is forbidden",
+                    "unsafe_code", "usage of an `unsafe` block", "borrowed value does not live long enough"]
+
 def client_src(p):
     acq, use, rel = HOLDER[p["h"]]
     intr = INTRUDER[p["i"]]
@@ -995,7 +999,13 @@ def client_corpus(tier, seed):
         if not compiles and ok:
             return [{"tags": ["C18"], "what": "an unsound client program compiles", "at": 0, "event": dict(desc, src=src[-600:]), "origin": {"engine": "client"}}]
         if not compiles and errs and not any(e in r["stderr"] for e in errs):
-            return [{"tags": ["C18"], "what": "unsound client rejected for an unexpected reason (expected %s): %s" % (errs, r["stderr"][-400:]), "at": 0, "event": desc, "origin": {"engine": "client"}}]
+            # The property only demands that the program does not compile. Another error of the
+            # borrow / lifetime / trait-bound family is still a rejection for a soundness reason (a
+            # refactoring may change which of them fires first); anything else (unresolved names,
+            # missing methods) means the corpus no longer fits the API: a tool error, not a verdict.
+            if any(e in r["stderr"] for e in REJECTION_FAMILY):
+                return []
+            return [{"tags": ["TOOL"], "what": "client corpus program rejected for a reason outside the soundness family (expected %s): %s" % (errs, r["stderr"][-400:]), "at": 0, "event": desc, "origin": {"engine": "client"}}]
         return []
     with ThreadPoolExecutor(max_workers=14) as ex:
         for job, res in zip(jobs, ex.map(run, jobs)):
